@@ -642,6 +642,16 @@ MC_THOROUGH = [
 ]
 NEG_BASE = {"Lookups": "{1, 2, 3}", "MaxId": 3}
 
+class _Rec:
+    """stand-in for ctx inside the model-checking thread: records, replayed on the main thread after the join"""
+    def __init__(self, ctx): self.ctx = ctx; self.calls = []; self.quick = ctx.quick; self.cov = {}
+    def log(self, *a): self.ctx.log(*a)
+    def tlc_stats(self, r, label): self.calls.append(("tlc_stats", (r, label)))
+    def fail(self, *a): self.calls.append(("fail", a))
+    def replay(self):
+        for m, a in self.calls: getattr(self.ctx, m)(*a)
+        self.ctx.cov.update(self.cov)
+
 def model_checking(ctx):
     """exhaustive part; returns nothing, records failures"""
     todo = list(MC_QUICK) + ([] if ctx.quick else list(MC_THOROUGH))
@@ -755,7 +765,8 @@ def run(ctx):
     scen += [random_scenario(rng, i, 18 if ctx.quick or i % 3 else 30) for i in range(nrand)]
     t0 = time.time()
     with ThreadPoolExecutor(max_workers=5) as ex:
-        fut_mc = ex.submit(model_checking, ctx)
+        rec = _Rec(ctx)
+        fut_mc = ex.submit(model_checking, rec)
         runs = list(ex.map(lambda s: run_scenario(exe, d, s[0], s[1]), scen))
         ctx.log("driver: %d scenarios executed in %.0fs" % (len(runs), time.time() - t0))
         by, r1 = tlc_validate(runs, d, "core", "core")
@@ -786,6 +797,7 @@ def run(ctx):
         for key, rj in sorted(ctx.cov.pop("_rejected", {}).items()):
             ctx.fail(key, rj["detail"] + ("\n(also: %s)" % ", ".join(rj["more"][:20]) if rj["more"] else ""), rj["replay"])
         fut_mc.result()
+        rec.replay()
     kinds = collections.Counter(e["e"] for r in runs for e in r["evs"])
     ctx.cov["trace_event_kinds"] = dict(kinds)
     for need in ("tx", "rx", "timer", "cb", "resolve", "cancel", "tick", "dump", "destroy", "sendfail"):
